@@ -190,7 +190,8 @@ func genC01(t *rapid.T, tier string) interface{} {
 		return &hProg{IterLag: genIterLag(t, tier)}
 	}
 	pr := &histProfile{Scripts: true, Batches: true, OwnerBias: 2, MaxBlocks: 20, MinBlocksOf: []int{2, 6, 12}, MaxTxs: 5, Evidence: 4, Missed: 2, Restart: 4, Queries: true, ExtraSign: true,
-		TxKinds: defaultTxKinds, Modes: []string{"", "", "", "check", "recheck", "simulate"}, WrongSigner: 12}
+		TxKinds: defaultTxKinds, Modes: []string{"", "", "", "check", "recheck", "simulate", "simulate"}, WrongSigner: 12,
+		Mutations: []string{"sigflip", "sigflip", "amount", "memo", "entropy", "swapkey"}}
 	if tier == "thorough" {
 		pr.MaxBlocks = 60
 	}
